@@ -110,18 +110,25 @@ def run(ctx):
         # long flush time-out: how long did the lonely third event wait beyond the time-out?  One heartbeat period at most; judged on
         # the median over the family (single samples on a loaded machine are not)
         longruns = {s["run"] for s in scs if s.get("phase_ms")}
-        extra = []
+        shortruns = {s["run"]: s["flush_ms"] for s in scs if s["stale"] and not s.get("phase_ms")}
+        extra, control = [], []
         for line in open(trace):
             e = json.loads(line)
             if e.get("ev") == "Stale" and e.get("run") in longruns and e.get("first") == 3:
                 extra.append(e["waited"] - 1500)
+            elif e.get("ev") == "Stale" and e.get("run") in shortruns:
+                control.append(e["waited"] - shortruns[e["run"]])       # the same machine, the same heartbeat, short time-outs
+        control.sort()
+        ctl = control[len(control) // 2] if control else 0
         if longruns and len(extra) < len(longruns) // 2:
             raise vlib.Infra("long-time-out staleness family: only %d of %d runs measured" % (len(extra), len(longruns)))
         if extra:
             extra.sort()
             med = extra[len(extra) // 2]
-            ctx.extra["lonely_event_wait_beyond_flush_timeout_ms"] = {"runs": len(extra), "median": med, "max": extra[-1]}
-            if med > 100 + 150:
+            ctx.extra["lonely_event_wait_beyond_flush_timeout_ms"] = {"runs": len(extra), "median": med, "max": extra[-1],
+                                                                      "median_of_short_timeout_runs": ctl}
+            # beyond one heartbeat period + slack, AND not explained by the machine (the short-time-out runs wait as long as ever)
+            if med > 100 + 150 and med - max(ctl, 0) > 200:
                 recs.append({"kind": "batch_stale_long_timeout", "median_beyond_timeout_ms": med, "max_ms": extra[-1], "runs": len(extra),
                              "allowed_ms": "one heartbeat period (100) + 150 slack on the median"})
         ctx.classify(recs)
